@@ -28,6 +28,7 @@ inductive Err where
   | cannotFind   -- `Error::CannotFindBlock`
   | decode       -- `Error::CannotDecodeBlock`
   | read         -- `Error::ChunkReadError`
+  | originMissing -- `Error::OriginMissing`
   deriving DecidableEq, Repr
 
 inductive Res (α : Type) where
@@ -120,6 +121,15 @@ def readBlocksFromPoint (all : List (Chunk H)) (slot : Nat) (hash : Option H) : 
   | .panic => .panic
   | .ok none => .err .cannotFind
   | .ok (some idx) => iterateTillPoint (readers (names.take (idx + 1))) slot hash
+
+/-- `read_blocks_from_point(dir, Point::Origin)`: the whole chain, provided its first block is the
+    genesis block (`slot() == 0 && number() == 0`, a predicate on the block here); an unreadable first
+    item or an empty database is passed through -/
+def readBlocksFromOrigin (isGenesis : Block H → Bool) (all : List (Chunk H)) : Res (List (Item H)) :=
+  match readBlocks all with
+  | .blk b :: rest => if isGenesis b then .ok (.blk b :: rest) else .err .originMissing
+  | .garbage :: _ => .err .decode
+  | items => .ok items
 
 /-- `get_tip`: last item of the newest immutable chunk -/
 def getTip (all : List (Chunk H)) : Res (Option (Block H)) :=
